@@ -11,8 +11,8 @@ QUICK_N = 600
 THOROUGH_N = 4000
 SHARD = 150
 TRANSLATORS = ["flowfilter_atoms"]
-COQ_PRELUDE = "From MV Require Import Model.FilterGrammar.\n"
-RULE = ("62% expression trees (depth <= 5, thorough <= 6; parenthesis / negation nesting bounded because the real parser is exponential in it) over every unary / regex / int operator with arguments from a "
+COQ_PRELUDE = "From MV Require Import Model.FilterGrammar Model.FilterBody.\n"
+RULE = ("12% body-operator cases: ~b / ~bq / ~bs with a regex from a pool that includes patterns matching the empty string (^$ .* x* (foo)? and the empty regex) applied by the real filter to a real HTTP flow whose request / response body is absent (None), present-and-empty or non-empty, with or without websocket messages, or to TCP / UDP / DNS / other flows; the rest: 62% expression trees (depth <= 5, thorough <= 6; parenthesis / negation nesting bounded because the real parser is exponential in it) over every unary / regex / int operator with arguments from a "
         "dictionary of regex-like words (operators, quotes, backslashes, parentheses, non-ASCII, empty), rendered by the harness "
         "renderer (mirror of the model's render; equality is part of the correspondence check) with random whitespace, redundant "
         "parentheses, explicit & vs juxtaposition, naked vs ~u, bare / raw-quoted / escape-quoted arguments, inside the guard of "
@@ -286,6 +286,34 @@ SOUP = ["~q", "~s", "~a", "~all", "~u", "~h", "~hq", "~b", "~bq", "~c", "~marked
         '"\\12"', '"\\1234"', '"\\xg1"', '"\\uD7FF"', '"\\f\\r"', "'\\\"'", '""', "''", "~c 12a", "~qa", "~q.", "~q!", "~hq)"]
 
 
+BODY_REX = ["^$", ".*", "x*", "(foo)?", "", "hello", ".", "^.", "\\Z", "a+", "HELLO", "h.llo", "foo|", "\\A", "b*$", "msg",
+            "[^x]", "\n", "^\\s*$", "(?s).*", "x?"]
+BODY_CONTENT = [None, None, "", "", "", "68656c6c6f20666f6f", "610a62", "58", "6d7367", "0a"]
+
+
+def gen_body(rng):
+    def content(allow_none=True):
+        c = rng.choice(BODY_CONTENT)
+        while c is None and not allow_none:
+            c = rng.choice(BODY_CONTENT)
+        return c
+
+    def msgs():
+        return [[rng.chance(0.5), content(False)] for _ in range(rng.randint(0, 3))]
+    t = rng.weighted([(70, "http"), (10, "tcp"), (6, "udp"), (8, "dns"), (6, "other")])
+    if t == "http":
+        ws = msgs() if rng.chance(0.2) else None
+        resp = rng.weighted([(25, "absent"), (75, "present")]) if ws is None else "present"
+        fl = {"t": "http", "req": content(), "resp": resp, "resp_body": content() if resp == "present" else None, "ws": ws}
+    elif t in ("tcp", "udp"):
+        fl = {"t": t, "msgs": msgs()}
+    elif t == "dns":
+        fl = {"t": "dns", "resp": rng.chance(0.5)}
+    else:
+        fl = {"t": "other"}
+    return {"k": "body", "op": rng.choice(["b", "bq", "bs"]), "rex": rng.choice(BODY_REX), "flow": fl}
+
+
 def gen(rng, n, tier):
     out = []
     maxd = 6 if tier == "thorough" else 5
@@ -293,6 +321,10 @@ def gen(rng, n, tier):
     rendered = []
     while len(out) < n:
         r = rng.random()
+        if r < 0.12:
+            out.append(gen_body(rng))
+            continue
+        r = (r - 0.12) / 0.88
         if r < 0.77:
             mode = "guard" if r < 0.62 else ("juxt" if r < 0.72 else "raw")
             for _ in range(40):
@@ -369,6 +401,18 @@ def setup_impl():
     f.comment = "foo"
     fl.append(f)
     fl.append(tflow.tudpflow())
+    f = tflow.tflow()  # request body present and empty, no response
+    f.request.content = b""
+    fl.append(f)
+    f = tflow.tflow(resp=True)  # request body absent, response body present and empty
+    f.request.content = None
+    f.response.content = b""
+    f.response.status_code = 204
+    fl.append(f)
+    f = tflow.tflow(resp=True)  # request body empty, response body absent
+    f.request.content = b""
+    f.response.content = None
+    fl.append(f)
     FLOWS = fl
 
 
@@ -449,8 +493,49 @@ def verdicts(f):
     return out
 
 
+def flow_parts(fl):
+    """the byte strings of a flow the body operators are documented to look at: (direction, bytes) with direction
+    True = request / from client; only bodies that are present (is not None), however short.  None = no reference."""
+    from mitmproxy import http, tcp, udp, dns
+    if isinstance(fl, http.HTTPFlow):
+        out = []
+        if fl.request is not None and (c := fl.request.get_content(strict=False)) is not None:
+            out.append((True, c))
+        if fl.response is not None and (c := fl.response.get_content(strict=False)) is not None:
+            out.append((False, c))
+        if fl.websocket is not None:
+            out += [(bool(m.from_client), m.content) for m in fl.websocket.messages if m.content is not None]
+        return out
+    if isinstance(fl, (tcp.TCPFlow, udp.UDPFlow)):
+        return [(bool(m.from_client), m.content) for m in fl.messages if m.content is not None]
+    if isinstance(fl, dns.DNSFlow):
+        out = [(True, str(fl.request).encode())] if fl.request else []
+        return out + ([(False, str(fl.response).encode())] if fl.response else [])
+    return []
+
+
+class RefBody:
+    """documented ~b / ~bq / ~bs: case-insensitive DOTALL regex search over every body that is present"""
+
+    def __init__(self, code, arg):
+        import warnings
+        try:
+            with warnings.catch_warnings():
+                warnings.simplefilter("ignore")
+                self.pat = re.compile(arg.encode(), re.IGNORECASE | re.DOTALL)
+        except Exception:
+            raise ValueError("Cannot compile expression.")
+        self.code = code
+
+    def __call__(self, fl):
+        return any(self.pat.search(c) is not None for d, c in flow_parts(fl)
+                   if self.code == "b" or d == (self.code == "bq"))
+
+
 def mk_atom(a):
     kind, code, arg = a
+    if kind == "r" and code in ("b", "bq", "bs"):
+        return RefBody(code, arg)
     for c in ff.filter_unary + ff.filter_rex + ff.filter_int:
         if c.code == code:
             return c() if kind == "u" else c(arg)
@@ -458,7 +543,7 @@ def mk_atom(a):
 
 
 def expected_verdicts(e):
-    """documented semantics: atoms by the real atom classes, combination by the tree"""
+    """documented semantics: atoms by the real atom classes (body operators by the independent RefBody), combination by the tree"""
     def ev(e, fl):
         if e[0] == "atom":
             return bool(ATOMS[id(e)](fl))
@@ -560,7 +645,72 @@ def observe(s, e=None):
     return o
 
 
+def build_flow(spec):
+    from mitmproxy import tcp, udp, websocket
+    from mitmproxy.test import tflow
+    from wsproto.frame_protocol import Opcode
+    b = lambda h: None if h is None else bytes.fromhex(h)
+    t = spec["t"]
+    if t == "http":
+        if spec["ws"] is not None:
+            f = tflow.twebsocketflow()
+            f.websocket.messages = [websocket.WebSocketMessage(Opcode.BINARY, fc, b(c)) for fc, c in spec["ws"]]
+        else:
+            f = tflow.tflow(resp=spec["resp"] == "present")
+        f.request.content = b(spec["req"])
+        if f.response is not None:
+            f.response.content = b(spec["resp_body"])
+        return f
+    if t in ("tcp", "udp"):
+        f = tflow.ttcpflow() if t == "tcp" else tflow.tudpflow()
+        cls = tcp.TCPMessage if t == "tcp" else udp.UDPMessage
+        f.messages = [cls(fc, b(c)) for fc, c in spec["msgs"]]
+        return f
+    if t == "dns":
+        return tflow.tdnsflow(resp=spec["resp"])
+    return tflow.tdummyflow()
+
+
+def shape_of(f):
+    """what the real flow object looks like to the body filters (for the Coq term)"""
+    from mitmproxy import http, tcp, udp, dns
+    h = lambda c: None if c is None else c.hex()
+    if isinstance(f, http.HTTPFlow):
+        return {"t": "http", "req": h(f.request.get_content(strict=False)),
+                "resp": None if f.response is None else [h(f.response.get_content(strict=False))],
+                "ws": None if f.websocket is None else [[bool(m.from_client), m.content.hex()] for m in f.websocket.messages]}
+    if isinstance(f, (tcp.TCPFlow, udp.UDPFlow)):
+        return {"t": "stream", "msgs": [[bool(m.from_client), m.content.hex()] for m in f.messages]}
+    if isinstance(f, dns.DNSFlow):
+        return {"t": "dns", "req": str(f.request).encode().hex(), "resp": h(str(f.response).encode() if f.response else None)}
+    return {"t": "other"}
+
+
+def run_body(case):
+    s = "~" + case["op"] + ' "' + escape('"', case["rex"]) + '"'
+    o = {"s": enc(s).hex(), "tree": None, "err": None}
+    f = build_flow(case["flow"])
+    o["shape"] = shape_of(f)
+    flt, err = real_parse(s)
+    o["err"] = err
+    if flt is None:
+        return o
+    o["tree"] = tree_of(flt)
+    try:
+        o["impl"] = bool(flt(f))
+    except Exception as ex:
+        o["err"] = "other:call:" + type(ex).__name__
+        return o
+    ref = RefBody(case["op"], case["rex"])
+    o["ref"] = ref(f)
+    o["tbl"] = sorted({(c.hex(), ref.pat.search(c) is not None) for _, c in flow_parts(f)})
+    o["tbl"] = [list(x) for x in o["tbl"]]
+    return o
+
+
 def run_impl(case):
+    if case["k"] == "body":
+        return run_body(case)
     if case["k"] == "str":
         s = case["s"]
         o = observe(s)
@@ -623,7 +773,29 @@ def c_tree(t):
     return "(Or (@nil ast))"  # unknown node class: can never equal a model result
 
 
+def c_msgs(ms):
+    return clist((f"({cbool(fc)}, {cbytes(bytes.fromhex(c))})" for fc, c in ms), "msg")
+
+
+def c_flowb(sh):
+    ob = lambda h: copt(h, lambda x: cbytes(bytes.fromhex(x)), "bytes")
+    if sh["t"] == "http":
+        resp = "(@None (option bytes))" if sh["resp"] is None else f"(Some {ob(sh['resp'][0])})"
+        ws = "(@None (list msg))" if sh["ws"] is None else f"(Some {c_msgs(sh['ws'])})"
+        return f"(HttpB {ob(sh['req'])} {resp} {ws})"
+    if sh["t"] == "stream":
+        return f"(StreamB {c_msgs(sh['msgs'])})"
+    if sh["t"] == "dns":
+        return f"(DnsB {cbytes(bytes.fromhex(sh['req']))} {ob(sh['resp'])})"
+    return "OtherB"
+
+
 def coq_case(case, obs):
+    if case["k"] == "body":
+        if obs["err"] is not None:  # the filter string must parse and the filter must not raise: forced disagreement
+            return "Body 0%N OtherB (@nil (bytes * bool)) true"
+        tbl = clist((f"({cbytes(bytes.fromhex(h))}, {cbool(v)})" for h, v in obs["tbl"]), "(bytes * bool)%type")
+        return f"Body {cN(['b', 'bq', 'bs'].index(case['op']))} {c_flowb(obs['shape'])} {tbl} {cbool(obs['impl'])}"
     if obs["err"] is not None and obs["err"] != "ValueError":
         impl = "(Some (Or (@nil ast)))"  # foreign exception: forced disagreement
     else:
@@ -665,6 +837,14 @@ def _fragment(s, j):
 
 
 def oracle(case, obs):
+    if case["k"] == "body":
+        s = bytes.fromhex(obs["s"]).decode()
+        if obs["err"] is not None:
+            return [{"key": "body-filter-error", "what": f"{s} on {case['flow']}: {obs['err']}"}]
+        if obs["impl"] != obs["ref"]:
+            return [{"key": "body-verdict", "what": f"parse({s!r}) on flow {case['flow']} gives {obs['impl']}; regex search over "
+                                                    f"the bodies that are present gives {obs['ref']}"}]
+        return []
     if case["k"] == "str":
         if obs["err"] is not None and obs["err"] != "ValueError":
             return [{"key": "other-exception", "what": f"parse({case['s']!r}) raised {obs['err']}"}]
@@ -698,6 +878,16 @@ def nontrivial(case, obs):
 
 def classify(case, obs):
     tags = [case["k"], "accepted" if obs["tree"] is not None else "rejected"]
+    if case["k"] == "body":
+        sh = obs["shape"]
+        tags += ["body-~" + case["op"], "body-" + sh["t"], "body-true" if obs.get("impl") else "body-false"]
+        if any(h == "" and v for h, v in obs.get("tbl", [])):
+            tags.append("body-rex-matches-empty-present-body")
+        if sh["t"] == "http":
+            tags.append("body-req-" + ("absent" if sh["req"] is None else "empty" if sh["req"] == "" else "nonempty"))
+            r = sh["resp"]
+            tags.append("body-resp-" + ("none" if r is None else "absent" if r[0] is None else "empty" if r[0] == "" else "nonempty"))
+        return tags
     if case["k"] == "render":
         g = obs["guard"]
         tags.append("in-guard" if all(g) else "dev-juxt" if not g[2] else "dev-raw")
